@@ -151,6 +151,15 @@ func applyAlt(c *Case) (*Case, int, bool) {
 	return b, n, deep
 }
 
+// userPanic: the value is one that a generated function body panics with.
+func userPanic(v interface{}) bool {
+	switch v.(type) {
+	case *PanicVal, *PanicErr, *CBPanicVal, string:
+		return true
+	}
+	return false
+}
+
 func nestingDepth(f *Fn) int {
 	max := 0
 	var wp func(p Param, d int)
@@ -194,6 +203,18 @@ func init() {
 			k.PSoft = 0 // soft group content depends on field placement by design (C11)
 			k.PNamed, k.PGroupRes = 30, 25
 			k.PFresh = 85
+			if rapid.IntRange(0, 99).Draw(t, "wrapmode") < 35 {
+				// order-preserving re-encodings on histories with failing
+				// functions: the same functions must run in both forms
+				k.WrapAlt = true
+				k.NoFaults, k.PFault, k.PErr, k.PPanic, k.PRecover = false, 18, 40, 30, 60
+				c := GenCase(t, scale(k, thorough))
+				if c.Variant == nil {
+					c.Variant = &Variant{}
+				}
+				c.Variant.Ordered = true
+				return c
+			}
 			return GenCase(t, scale(k, thorough))
 		},
 		Check: func(c *Case, st *Stats) *Failure {
@@ -203,6 +224,9 @@ func init() {
 			v := Validate(c, ta, VOpts{})
 			l := CaseLabels(c, v)
 			l["reencoded>=2"] = n >= 2
+			if c.Variant != nil && c.Variant.Ordered {
+				l["order-preserving-reencoding-with-faults"] = true
+			}
 			l["deep-or-optmove"] = deep
 			st.Record(c, n >= 2 && deep && l["invoke-ran>=2"], l)
 			if v.Tainted {
@@ -215,14 +239,14 @@ func init() {
 				if ta.Ops[i].Class == ClRisky || tb.Ops[i].Class == ClRisky {
 					return nil
 				}
-				if ta.Ops[i].Panicked || tb.Ops[i].Panicked {
+				if (ta.Ops[i].Panicked && !userPanic(ta.Ops[i].PanicVal)) || (tb.Ops[i].Panicked && !userPanic(tb.Ops[i].PanicVal)) {
 					return &Failure{CEscapedPanic, fmt.Sprintf("op %d panicked: %v / %v", i, ta.Ops[i].PanicVal, tb.Ops[i].PanicVal)}
 				}
 				ca, cb := canonOpOf(ta, fa, i), canonOpOf(tb, fb, i)
 				if ca.Class != cb.Class {
 					return &Failure{"encoding-verdict", fmt.Sprintf("op %d: %s gives %s (%v) but its equivalent encoding %s gives %s (%v)", i, op.Short(), ca.Class, ta.Ops[i].Err, b.Ops[i].Short(), cb.Class, tb.Ops[i].Err)}
 				}
-				if op.K == OpInvoke && ca.Class != ClOK {
+				if op.K == OpInvoke && ca.Class != ClOK && !(c.Variant != nil && c.Variant.Ordered) {
 					failedBefore = true
 				}
 				if !failedBefore {
